@@ -499,7 +499,7 @@ static void explore(bool big)
     }
     g_file = dir / "c60_banlist";
 
-    const int max_depth = big ? 5 : 3;
+    const int max_depth = big ? 6 : 4;
     uint64_t states = 0, transitions = 0;
     std::unordered_set<std::string> seen;
     std::vector<std::vector<uint8_t>> frontier{{}};
